@@ -86,6 +86,63 @@ theorem hitsPost_abs (v : List ℚ) (h : (∀ x ∈ v, 0 ≤ x) ∨ (∀ x ∈ v
     have hx0 := h x hx
     rw [if_neg (by linarith), abs_of_nonpos hx0]; ring
 
+/-- the vector with the non-positive entries replaced by 0 -/
+def clip0 (v : List ℚ) : List ℚ := v.map fun x => if x < 0 then 0 else x
+
+theorem neg_filter_pos_sum (v : List ℚ) :
+    ((v.map fun x => 0 - x).filter fun x => decide (0 < x)).sum = 0 - (v.filter fun x => decide (x < 0)).sum := by
+  induction v with
+  | nil => simp
+  | cons a t ih =>
+    rw [List.map_cons, List.filter_cons, List.filter_cons]
+    by_cases h : a < 0
+    · have h' : 0 < 0 - a := by linarith
+      simp only [h, h', decide_true, if_true, List.sum_cons, ih]; ring
+    · have h' : ¬ 0 < 0 - a := by linarith
+      simp only [h, h', decide_false, Bool.false_eq_true, if_false, ih]
+
+theorem neg_filter_neg_sum (v : List ℚ) :
+    ((v.map fun x => 0 - x).filter fun x => decide (x < 0)).sum = 0 - (v.filter fun x => decide (0 < x)).sum := by
+  induction v with
+  | nil => simp
+  | cons a t ih =>
+    rw [List.map_cons, List.filter_cons, List.filter_cons]
+    by_cases h : 0 < a
+    · have h' : 0 - a < 0 := by linarith
+      simp only [h, h', decide_true, if_true, List.sum_cons, ih]; ring
+    · have h' : ¬ 0 - a < 0 := by linarith
+      simp only [h, h', decide_false, Bool.false_eq_true, if_false, ih]
+
+/-- ★ HITS: when the positive entries of the vector `w` carry more mass than the negative ones, the post-processing returns
+    `w` clipped at 0 whichever of `w`, `−w` the SVD solver returned -/
+theorem hitsPost_sign (w : List ℚ)
+    (h : 0 - (w.filter fun x => decide (x < 0)).sum < (w.filter fun x => decide (0 < x)).sum) :
+    hitsPost w = clip0 w ∧ hitsPost (w.map fun x => 0 - x) = clip0 w := by
+  constructor
+  · unfold hitsPost clip0
+    simp only
+    rw [if_pos h]
+  · unfold hitsPost clip0
+    simp only
+    rw [neg_filter_pos_sum, neg_filter_neg_sum]
+    have hn : ¬ (0 - (0 - (w.filter fun x => decide (0 < x)).sum) < 0 - (w.filter fun x => decide (x < 0)).sum) := by
+      linarith
+    rw [if_neg hn, List.map_map]
+    apply List.map_congr_left; intro x _
+    simp only [Function.comp]
+    have e : 0 - (0 - x) = x := by ring
+    rw [e]
+
+/-- clipping a noisy non-negative entry: `|max(u + e, 0) − u| ≤ |e|` for `u ≥ 0` -/
+theorem clip_noise (u e : ℚ) (hu : 0 ≤ u) : |(if u + e < 0 then 0 else u + e) - u| ≤ |e| := by
+  split
+  · rename_i h
+    rw [zero_sub, abs_neg, abs_of_nonneg hu]
+    have : e < 0 := by linarith
+    rw [abs_of_neg this]; linarith
+  · have : u + e - u = e := by ring
+    rw [this]
+
 /-! ### bicgstab -/
 
 /-- distance between a normalised vector `u` (any signs) and `π` from its distance to a positive multiple `t·π` -/
